@@ -37,6 +37,8 @@
 //!                                      Admitted bodies: no write, no untracked read, no key / field node, and the directly
 //!                                      read nodes have pairwise disjoint signal ancestors (else `bad-op`): for those the
 //!                                      effect runs exactly once per change and sees no mixture (see `imm_ok`)
+//!   drop <memo>                        dispose (arena) / drop (arc) a memo that no node reads: it stays behind as a dead
+//!                                      entry in its sources' subscriber lists; afterwards it cannot be read (`bad-op`)
 //!   oncl                               every effect run registers one `on_cleanup` (C02 prints ` cl=<node>:<calls>,…`)
 //!   set <id> <v> | sset <slice> <v> | read <id> | poll <i> | idle
 //! <expr> prefix tokens: L<n> | R<id> (tracked read) | U<id> (read under untrack) |
@@ -257,6 +259,8 @@ pub struct Shared {
     cl_pending: Vec<Vec<u64>>,
     /// cleanup calls since the last drain (node ids)
     pub cl_calls: Vec<usize>,
+    /// dropped memos
+    pub dropped: Vec<usize>,
 }
 
 impl Shared {
@@ -280,7 +284,7 @@ impl Shared {
         matches!(self.sel.get(id), Some(Some(_)))
     }
     pub fn is_leaf(&self, id: usize) -> bool {
-        matches!(self.coarse.get(id), Some(Some(_)))
+        matches!(self.coarse.get(id), Some(Some(_))) || self.dropped.contains(&id)
     }
     pub fn is_field(&self, id: usize) -> bool {
         matches!(self.field.get(id), Some(Some(_)))
@@ -943,6 +947,40 @@ impl Case {
 
     pub fn set_acc(&mut self, n: usize) {
         self.sh.lock().unwrap().acc = Some(n)
+    }
+
+    /// `drop <memo>`: only a memo nobody reads
+    pub fn drop_memo(&mut self, id: usize) -> bool {
+        let (h, r) = {
+            let mut g = self.sh.lock().unwrap();
+            let ok = matches!(g.defs.get(id), Some(Def::Memo(_)))
+                && g.slice.get(id).cloned().flatten().is_none()
+                && !g.dropped.contains(&id)
+                && !g.defs.iter().any(|d| match d {
+                    Def::Memo(b) | Def::Eff(b) => {
+                        let mut v = vec![];
+                        direct_reads(b, &mut v);
+                        v.contains(&id)
+                    }
+                    _ => false,
+                });
+            if !ok {
+                return false;
+            }
+            g.dropped.push(id);
+            (std::mem::replace(&mut g.handles[id], Handle::Eff), std::mem::replace(&mut g.readers[id], Reader::Direct))
+        };
+        use reactive_graph::traits::Dispose;
+        match r {
+            Reader::Wrapped(s) => s.dispose(),
+            #[allow(deprecated)]
+            Reader::Maybe(MaybeSignal::Dynamic(s)) => s.dispose(),
+            _ => {}
+        }
+        if let Handle::Memo(m) = h {
+            m.dispose()
+        }
+        true
     }
 
     pub fn set_oncl(&mut self) {
